@@ -11,7 +11,9 @@ Open Scope N_scope.
 
 Section Silent.
 Variables (sc : script) (m : N).
-Hypothesis Hst : c_stages (cfg sc m) = 1.
+(* the one case left out: a module with several start-up stages whose stereotype catches panics --
+   ModuleRef::module_restart goes on with the later stages after a caught panic of an earlier one *)
+Hypothesis Hst : c_stages (cfg sc m) = 1 \/ c_catch (cfg sc m) = false.
 Let sc' := quieten m sc.
 
 Lemma cfg_other i : i <> m -> cfg sc' i = cfg sc i.
@@ -119,50 +121,6 @@ Proof.
   - rewrite E5, E6, !(flush_rt_addok m i Hi) by assumption. auto.
 Qed.
 
-(* ---- an inert event on a world in which m is dead ---- *)
-Lemma inert_step sc0 w t ev f1 :
-  active (w_mod w m) = false -> shut (w_mod w m) = None -> w_buf w = [] -> WF (w_fes w) ->
-  restart_times m (w_fes w) = [] -> fes_fetch (w_fes w) = Some (t, ev, f1) -> inert m ev = true ->
-  let w1 := fst (process sc0 (set_fes w f1) t ev) in
-  (forall j, j <> m -> w_mod w1 j = w_mod w j) /\ active (w_mod w1 m) = false /\ shut (w_mod w1 m) = None /\
-  w_buf w1 = [] /\ WF (w_fes w1) /\ restart_times m (w_fes w1) = [] /\
-  (forall f', FesRel m (w_fes w) f' -> FesRel m (w_fes w1) f') /\
-  snd (process sc0 (set_fes w f1) t ev) = [].
-Proof.
-  intros Ha Hs Hb W Hn Hf Hi w1.
-  destruct (WF_fetch _ _ _ _ W Hf) as [W1 _].
-  assert (Hn1 : restart_times m f1 = []).
-  { pose proof (fes_fetch_order _ _ _ _ Hf) as Ho. unfold restart_times in *. rewrite Ho in Hn. unfold rtimes in *. cbn [filter] in Hn.
-    destruct (is_restart m (t, ev)); [discriminate|exact Hn]. }
-  assert (Hwk : forall x, Forall (fun p => inert m (snd p) = true /\ is_restart m p = false) (wake_of m x)).
-  { intros x. unfold wake_of. destruct (timers x) as [|[tt tk] r]; [constructor|]. destruct (lt_nw tt (nw x)); [|constructor].
-    constructor; [|constructor]. cbn [snd inert]. rewrite N.eqb_refl. split; reflexivity. }
-  assert (Hfl : forall l f, Forall (fun p => inert m (snd p) = true /\ is_restart m p = false) l -> WF f ->
-                  WF (fes_flush l f) /\ restart_times m (fes_flush l f) = restart_times m f /\
-                  (forall f', FesRel m f f' -> FesRel m (fes_flush l f) f')).
-  { induction l as [|p l IH]; intros f Hl Wf; cbn [fes_flush fold_left]; [auto|].
-    inversion Hl as [|? ? [Hp1 Hp2] Hl']; subst. fold (fes_flush l (fes_add (fst p) (snd p) f)).
-    destruct (IH (fes_add (fst p) (snd p) f) Hl' (WF_add _ _ _ Wf)) as (I1 & I2 & I3).
-    split; [exact I1|]. split; [rewrite I2; apply fes_add_rt_other; destruct p; exact Hp2|].
-    intros f' R. apply I3, FesRel_add_l; assumption. }
-  assert (Hmod : forall fcb, (forall s, active (w_mod (x_w s) m) = false -> fcb s = s) ->
-     let w2 := fst (around sc0 t m fcb (set_fes w f1)) in
-     (forall j, j <> m -> w_mod w2 j = w_mod w j) /\ active (w_mod w2 m) = false /\ shut (w_mod w2 m) = None /\
-     w_buf w2 = [] /\ WF (w_fes w2) /\ restart_times m (w_fes w2) = [] /\
-     (forall f', FesRel m (w_fes w) f' -> FesRel m (w_fes w2) f') /\ snd (around sc0 t m fcb (set_fes w f1)) = []).
-  { intros fcb Hid w2. destruct (around_inactive sc0 t m fcb (set_fes w f1) Ha Hs Hb Hid) as (A1 & A2 & A3 & A4 & A5 & A6).
-    destruct (Hfl _ f1 (Hwk (w_mod (activate t m (set_fes w f1)) m)) W1) as (F1 & F2 & F3).
-    subst w2. rewrite A2. cbn [w_fes set_fes]. split; [exact A3|]. split; [exact A4|]. split; [exact A5|]. split; [exact A6|].
-    split; [exact F1|]. split; [rewrite F2; exact Hn1|]. split; [|exact A1].
-    intros f' R. apply F3. eapply fetch_inert_l; eauto. }
-  destruct ev as [i far x|i x|i|i]; cbn [inert] in Hi; try discriminate; apply N.eqb_eq in Hi; subst i; unfold process in *.
-  - subst w1. unfold walk. cbn [w_mod set_fes]. rewrite Ha. cbn [fst snd set_fes w_mod w_buf w_fes].
-    repeat (split; [assumption|]). split; [intros; reflexivity|]. repeat (split; [assumption|]).
-    split; [intros f' R; eapply fetch_inert_l; [exact Hf|cbn [inert]; apply N.eqb_refl|exact R]|reflexivity].
-  - apply Hmod. intros s Hact. unfold handle_message. rewrite Hact. reflexivity.
-  - apply Hmod. intros s Hact. unfold async_wakeup. rewrite Hact. reflexivity.
-Qed.
-
 (* ---- an event of m itself while the two worlds are still equal ---- *)
 Definition Post (s s' : xs) : Prop :=
   Agree m (x_w s) (x_w s') \/ (Div m (x_w s) (x_w s') /\ active (w_mod (x_w s) m) = false).
@@ -207,13 +165,73 @@ Proof.
     cbn [fst]. auto.
 Qed.
 
+(* start-up stages other than 0 run no program: the two scripts do the same *)
+Lemma at_sim_start_later now stage s : stage <> 0 ->
+  at_sim_start (nmods sc') (cfg sc' m) now m stage s = at_sim_start (nmods sc) (cfg sc m) now m stage s.
+Proof.
+  intros H. apply N.eqb_neq in H. unfold at_sim_start. rewrite H, nmods', cfg_self. reflexivity.
+Qed.
+
+Lemma at_sim_start0_flags now s s' : AgreeX m s s' ->
+  (AgreeX m (fst (at_sim_start (nmods sc) (cfg sc m) now m 0 s)) (fst (at_sim_start (nmods sc') (cfg sc' m) now m 0 s')) /\
+   snd (at_sim_start (nmods sc) (cfg sc m) now m 0 s) = false /\ snd (at_sim_start (nmods sc') (cfg sc' m) now m 0 s') = false) \/
+  (Div m (x_w (fst (at_sim_start (nmods sc) (cfg sc m) now m 0 s))) (x_w (fst (at_sim_start (nmods sc') (cfg sc' m) now m 0 s'))) /\
+   active (w_mod (x_w (fst (at_sim_start (nmods sc) (cfg sc m) now m 0 s))) m) = false /\
+   snd (at_sim_start (nmods sc) (cfg sc m) now m 0 s) = negb (c_catch (cfg sc m)) /\
+   snd (at_sim_start (nmods sc') (cfg sc' m) now m 0 s') = false).
+Proof.
+  intros H. pose proof H as [Ha Hl]. unfold at_sim_start. rewrite N.eqb_refl, nmods', cfg_self, pick_start_quiet.
+  change (c_tasks (quiet_cfg (cfg sc m))) with (c_tasks (cfg sc m)). rewrite <- (ag_mod _ _ _ Ha).
+  destruct (exec_quiet (nmods sc) now m (CbStart 0) (c_tasks (cfg sc m)) (pick_start (cfg sc m) (inc (w_mod (x_w s) m))) s s' H)
+    as [(E1 & E2 & E3)|(E1 & E2 & E3)];
+    destruct (exec (nmods sc) now m (CbStart 0) (c_tasks (cfg sc m)) (pick_start (cfg sc m) (inc (w_mod (x_w s) m))) s) as [s1 p1];
+    destruct (exec (nmods sc) now m (CbStart 0) (c_tasks (cfg sc m)) (map quiet_act (pick_start (cfg sc m) (inc (w_mod (x_w s) m)))) s') as [s1' p1'];
+    cbn [fst snd] in *; subst p1 p1'.
+  - left. cbn [catch fst snd x_w]. split; [split; [exact (proj1 E3)|exact (proj2 E3)]|auto].
+  - right. destruct (Div_catch (cfg sc m) _ _ E3) as [D1 D2]. cbn [catch] in *.
+    destruct (c_catch (cfg sc m)); cbn [fst snd x_w negb] in *; auto.
+Qed.
+
+Lemma restart_tail_agree now : forall tl s s' e, Forall (fun st => st <> 0) tl -> AgreeX m s s' ->
+  AgreeX m (fst (fold_left (fun (acc : xs * bool) stage => if snd acc then acc else at_sim_start (nmods sc) (cfg sc m) now m stage (fst acc)) tl (s, e)))
+           (fst (fold_left (fun (acc : xs * bool) stage => if snd acc then acc else at_sim_start (nmods sc') (cfg sc' m) now m stage (fst acc)) tl (s', e))).
+Proof.
+  induction tl as [|st tl IH]; intros s s' e Hne H; cbn [fold_left fst snd]; [exact H|].
+  inversion Hne as [|x l Hx Hl]; subst. destruct e; [apply IH; assumption|]. rewrite at_sim_start_later by assumption.
+  destruct (at_sim_start_agree (nmods sc) (cfg sc m) now m st s s' H) as [H1 H2].
+  destruct (at_sim_start (nmods sc) (cfg sc m) now m st s) as [s1 e1], (at_sim_start (nmods sc) (cfg sc m) now m st s') as [s1' e1'].
+  cbn [fst snd] in *. subst e1'. apply IH; assumption.
+Qed.
+
+Lemma restart_tail_div now w : forall tl s', Forall (fun st => st <> 0) tl -> Div m w (x_w s') ->
+  Div m w (x_w (fst (fold_left (fun (acc : xs * bool) stage => if snd acc then acc else at_sim_start (nmods sc') (cfg sc' m) now m stage (fst acc)) tl (s', false)))).
+Proof.
+  induction tl as [|st tl IH]; intros s' Hne H; cbn [fold_left fst snd]; [exact H|].
+  inversion Hne as [|x l Hx Hl]; subst. rewrite at_sim_start_later by assumption.
+  destruct (at_sim_start_div m (nmods sc) (cfg sc m) now st w s' Hx H) as [D1 D2].
+  destruct (at_sim_start (nmods sc) (cfg sc m) now m st s') as [s1 e1]. cbn [fst snd] in *. subst e1. apply IH; assumption.
+Qed.
+
 Lemma module_restart_post now s s' : AgreeX m s s' ->
   Post (module_restart (nmods sc) (cfg sc m) now m s) (module_restart (nmods sc') (cfg sc' m) now m s').
 Proof.
   intros H. unfold module_restart.
-  assert (Hs' : c_stages (cfg sc' m) = 1) by (rewrite cfg_self; exact Hst).
-  rewrite Hst, Hs', stage_list_1. cbn [fold_left fst snd]. apply at_sim_start0_post.
-  apply AgreeX_on_w; [exact H|]. apply (Agree_upd m _ _ (fun x => set_active x true) (proj1 H)).
+  assert (Hs' : c_stages (cfg sc' m) = c_stages (cfg sc m)) by (rewrite cfg_self; reflexivity). rewrite Hs'.
+  assert (H0 : AgreeX m (on_w (fun w => set_mod w m (set_active (w_mod w m) true)) s) (on_w (fun w => set_mod w m (set_active (w_mod w m) true)) s'))
+    by (apply AgreeX_on_w; [exact H|]; apply (Agree_upd m _ _ (fun x => set_active x true) (proj1 H))).
+  destruct (N.eq_dec (c_stages (cfg sc m)) 0) as [E0|E0]; [rewrite E0; left; exact (proj1 H0)|].
+  destruct (stage_list_shape (c_stages (cfg sc m))) as (tl & Esl & Htl); [lia|]. rewrite Esl. cbn [fold_left fst snd].
+  destruct (at_sim_start0_flags now _ _ H0) as [(A1 & A2 & A3)|(D1 & D2 & D3 & D4)].
+  - destruct (at_sim_start (nmods sc) (cfg sc m) now m 0 _) as [s1 e1], (at_sim_start (nmods sc') (cfg sc' m) now m 0 _) as [s1' e1'].
+    cbn [fst snd] in *. subst e1 e1'. left. apply (proj1 (restart_tail_agree now tl s1 s1' false Htl A1)).
+  - destruct (at_sim_start (nmods sc) (cfg sc m) now m 0 _) as [s1 e1], (at_sim_start (nmods sc') (cfg sc' m) now m 0 _) as [s1' e1'].
+    cbn [fst snd] in *. subst e1 e1'. right.
+    assert (Hcase : tl = [] \/ c_catch (cfg sc m) = false).
+    { destruct Hst as [H1|H1]; [left|right; exact H1]. rewrite H1 in Esl. unfold stage_list in Esl. cbn in Esl. injection Esl as <-. reflexivity. }
+    destruct Hcase as [-> |Hc].
+    + cbn [fold_left fst]. destruct (negb (c_catch (cfg sc m))); auto.
+    + rewrite Hc. cbn [negb]. rewrite fold_stopped by (intros; reflexivity). cbn [fst]. split; [|exact D2].
+      apply restart_tail_div; assumption.
 Qed.
 
 (* the world after the event, from the post-callback relation *)
@@ -410,32 +428,6 @@ Proof.
 Qed.
 
 (* ---- the loops ---- *)
-Lemma loop_step_eq sc0 w now tr :
-  loop_step sc0 (w, now, tr) =
-  match fes_fetch (w_fes w) with
-  | None => inr (w, now, tr)
-  | Some (t, ev, f1) => inl (fst (loop_rec sc0 (set_fes w f1) t ev), t, tr ++ [snd (loop_rec sc0 (set_fes w f1) t ev)])
-  end.
-Proof.
-  unfold loop_step, loop_rec. destruct (fes_fetch (w_fes w)) as [[[t ev] f1]|]; [|reflexivity].
-  destruct (process sc0 (set_fes w f1) t ev). reflexivity.
-Qed.
-
-(* what the generated worlds of the panicking run provide *)
-Lemma gen_facts w tr : Gen sc w tr ->
-  shut (w_mod w m) = None /\ (active (w_mod w m) = true -> restart_times m (w_fes w) = []) /\
-  (forall t f1, fes_fetch (w_fes w) = Some (t, EvRestart m, f1) -> restart_times m f1 = []).
-Proof.
-  intros HG. destruct (gen_WI sc w tr HG m) as [(_ & _ & Hs) _]. pose proof (gen_RI sc w tr HG m) as HR.
-  split; [exact Hs|]. split.
-  - intros Ha. destruct (pending m tr) eqn:Ep; [|exact HR]. exfalso.
-    assert (Hd : Down m w) by (apply (gen_down sc m w tr HG), pending_down; rewrite Ep; discriminate).
-    rewrite (dn_active _ _ Hd) in Ha. discriminate.
-  - intros t f1 Hf. pose proof (fes_fetch_order _ _ _ _ Hf) as Ho. unfold restart_times in *. rewrite Ho in HR.
-    unfold rtimes in *. cbn [filter is_restart snd] in HR. rewrite N.eqb_refl in HR. cbn [map fst] in HR.
-    destruct (pending m tr); [injection HR as _ HR; exact HR|discriminate].
-Qed.
-
 Lemma sim_loop : forall K n n' w w' now now' tr tr' wf nf trf wf' nf' trf',
   (n + n' <= K)%nat -> Gen sc w tr -> Rel w w' -> others (items tr) = others (items tr') ->
   iter_nat n (loop_step sc) (w, now, tr) = inr (wf, nf, trf) ->
@@ -453,7 +445,7 @@ Proof.
     + (* the two worlds are equal *)
       pose proof HS as [a b [c d]]. rewrite <- b in Hn'.
       destruct (fes_fetch (w_fes w)) as [[[t ev] f1]|] eqn:Hf.
-      * destruct (gen_facts w tr HG) as (Q1 & Q2 & Q3).
+      * destruct (gen_facts sc m w tr HG) as (Q1 & Q2 & Q3).
         destruct (step_same w w' t ev f1 HS W Hf Q1 Q2) as [R O]; [intros ->; eapply Q3; eauto|].
         eapply (IH n n'); [lia| |exact R| |exact Hn|exact Hn'].
         -- eapply G1; [exact HG|]. apply (S_loop sc w t ev f1 Hf).
@@ -464,7 +456,7 @@ Proof.
       destruct (fes_fetch (w_fes w)) as [[[t ev] f1]|] eqn:Hf.
       * destruct (inert m ev) eqn:Hi.
         -- (* the panicking run dispatches an inert event on its own *)
-           destruct (inert_step sc w t ev f1 b1 s1 c W n1 Hf Hi) as (I1 & I2 & I3 & I4 & I5 & I6 & I7 & I8).
+           destruct (inert_step m sc w t ev f1 b1 s1 c W n1 Hf Hi) as (I1 & I2 & I3 & I4 & I5 & I6 & I7 & I8).
            eapply (IH n (S n')) with (now' := now'); [lia| | | |exact Hn|cbn [iter_nat]; rewrite loop_step_eq; exact Hn'].
            ++ eapply G1; [exact HG|]. apply (S_loop sc w t ev f1 Hf).
            ++ split; [right|split; [exact I5|exact W']]. unfold loop_rec. cbn [fst].
@@ -473,7 +465,7 @@ Proof.
         -- destruct (fes_fetch (w_fes w')) as [[[t' ev'] f1']|] eqn:Hf'.
            ++ destruct (inert m ev') eqn:Hi'.
               ** (* the quiet run dispatches an inert event on its own *)
-                 destruct (inert_step sc' w' t' ev' f1' b2 s2 d W' n2 Hf' Hi') as (I1 & I2 & I3 & I4 & I5 & I6 & I7 & I8).
+                 destruct (inert_step m sc' w' t' ev' f1' b2 s2 d W' n2 Hf' Hi') as (I1 & I2 & I3 & I4 & I5 & I6 & I7 & I8).
                  eapply (IH (S n) n') with (now := now); [lia|exact HG| | |cbn [iter_nat]; rewrite loop_step_eq, Hf; exact Hn|exact Hn'].
                  --- split; [right|split; [exact W|exact I5]]. unfold loop_rec. cbn [fst].
                      constructor; auto.
@@ -489,7 +481,7 @@ Proof.
            ++ exfalso. pose proof (fetch_none_r m _ _ _ _ _ Hf' fr Hf) as C. congruence.
       * destruct (fes_fetch (w_fes w')) as [[[t' ev'] f1']|] eqn:Hf'.
         -- pose proof (fetch_none_l m _ _ _ _ _ Hf fr Hf') as Hi'.
-           destruct (inert_step sc' w' t' ev' f1' b2 s2 d W' n2 Hf' Hi') as (I1 & I2 & I3 & I4 & I5 & I6 & I7 & I8).
+           destruct (inert_step m sc' w' t' ev' f1' b2 s2 d W' n2 Hf' Hi') as (I1 & I2 & I3 & I4 & I5 & I6 & I7 & I8).
            eapply (IH (S n) n') with (now := now); [lia|exact HG| | |cbn [iter_nat]; rewrite loop_step_eq, Hf; exact Hn|exact Hn'].
            ++ split; [right|split; [exact W|exact I5]]. unfold loop_rec. cbn [fst].
               constructor; auto.
@@ -509,24 +501,34 @@ Record SI (acc acc' : world * list erec) : Prop := {
 Lemma stages' i : c_stages (cfg sc' i) = c_stages (cfg sc i).
 Proof. destruct (N.eq_dec i m) as [->|Hi]; [rewrite cfg_self; reflexivity|rewrite (cfg_other i Hi); reflexivity]. Qed.
 
+Lemma start_cb_later stage : stage <> 0 -> forall s, start_cb sc' stage m s = start_cb sc stage m s.
+Proof. intros H s. unfold start_cb. rewrite (at_sim_start_later 0 stage s H). reflexivity. Qed.
+
 Lemma start_step stage i acc acc' : SI acc acc' -> (stage = 0 -> w_mod (fst acc) i = mst0 (cfg sc i)) ->
   SI (start_one sc stage i acc) (start_one sc' stage i acc').
 Proof.
   intros [HG [HR [W W']] Ht Ho] Hfr. destruct acc as [w tr], acc' as [w' tr']. cbn [fst snd] in *.
-  rewrite !start_one_eq, stages'. destruct (stage <? c_stages (cfg sc i)) eqn:Els; [|constructor; cbn [fst snd]; [assumption|split; auto|assumption..]].
-  assert (HG' : Gen sc (fst (start_rec sc stage i w)) (tr ++ [snd (start_rec sc stage i w)])) by (eapply G1; [exact HG|apply S_start, Hfr]).
+  rewrite !start_one_eq, stages'.
+  assert (Eact : active (w_mod w' i) = active (w_mod w i)).
+  { destruct HR as [HS|HD]; [rewrite (sm_mod _ _ HS); reflexivity|].
+    destruct (N.eq_dec i m) as [->|Hi]; [destruct (dd_act _ _ HD) as [-> ->]; reflexivity|rewrite (dd_oth _ _ HD i Hi); reflexivity]. }
+  rewrite Eact.
+  destruct ((stage <? c_stages (cfg sc i)) && active (w_mod w i)) eqn:Els; [|constructor; cbn [fst snd]; [assumption|split; auto|assumption..]].
+  apply andb_true_iff in Els. destruct Els as [_ Ha].
+  assert (HG' : Gen sc (fst (start_rec sc stage i w)) (tr ++ [snd (start_rec sc stage i w)])) by (eapply G1; [exact HG|apply S_start; [exact Hfr|exact Ha]]).
   unfold start_rec in *. cbn [fst snd] in *.
   destruct (N.eq_dec i m) as [->|Hi].
-  - (* stage 0 of module m itself (its only stage) *)
-    assert (E0 : stage = 0) by (rewrite Hst in Els; apply N.ltb_lt in Els; lia). subst stage.
-    assert (Ha : active (w_mod w m) = true) by (rewrite (Hfr eq_refl); reflexivity).
+  - (* a stage of module m itself: it is active, so the two worlds are still equal *)
     destruct HR as [HS|HD]; [|destruct HD as [_ [b1 _] _ _ _ _]; congruence].
-    destruct (gen_facts w tr HG) as (Q1 & Q2 & _).
-    assert (Hok : CbOK m (start_cb sc 0 m)) by exact (start_cb_ok (nmods sc) (cfg sc m) 0 m 0).
-    assert (Hok' : CbOK m (start_cb sc' 0 m)) by exact (start_cb_ok (nmods sc') (cfg sc' m) 0 m 0).
-    destruct (m_event 0 (start_cb sc 0 m) (start_cb sc' 0 m) w w' HS W (fun _ => Q2 Ha) Hok Hok')
+    destruct (gen_facts sc m w tr HG) as (Q1 & Q2 & _).
+    assert (Hok : CbOK m (start_cb sc stage m)) by exact (start_cb_ok (nmods sc) (cfg sc m) 0 m stage).
+    assert (Hok' : CbOK m (start_cb sc' stage m)) by exact (start_cb_ok (nmods sc') (cfg sc' m) 0 m stage).
+    destruct (m_event 0 (start_cb sc stage m) (start_cb sc' stage m) w w' HS W (fun _ => Q2 Ha) Hok Hok')
       as (R & Wa & Wb & T1 & T2).
-    { unfold start_cb. apply at_sim_start0_post. split; [apply activate_agree, Same_agree, HS|reflexivity]. }
+    { destruct (N.eq_dec stage 0) as [->|Hs0].
+      - unfold start_cb. apply at_sim_start0_post. split; [apply activate_agree, Same_agree, HS|reflexivity].
+      - left. rewrite (start_cb_later stage Hs0). unfold start_cb.
+        apply (at_sim_start_agree (nmods sc) (cfg sc m) 0 m stage). split; [apply activate_agree, Same_agree, HS|reflexivity]. }
     constructor; cbn [fst snd]; [exact HG'|split; [exact R|split; assumption]|rewrite T1, T2; reflexivity|].
     rewrite !items_snoc, !others_app, Ho. cbn [e_items].
     rewrite (others_own _ (around_own sc 0 m _ w Hok)), (others_own _ (around_own sc' 0 m _ w' Hok')). reflexivity.
